@@ -177,9 +177,6 @@ func SharedLexemesOnly(src []byte) []string {
 		case tok == token.MUL && byteAt(src, t.Pos+1) == '*':
 			add("x:pow")
 		case tok == token.COMMENT:
-			if src[t.Pos] == '/' && byteAt(src, t.Pos+1) == '/' {
-				break
-			}
 			end, _ := matchCR(src, t.Pos, t.Lit)
 			if byteAt(src, t.Pos+1) == '*' && !(len(t.Lit) >= 4 && strings.HasSuffix(t.Lit, "*/")) {
 				end = len(src) // not terminated: the comment runs to the end of the source
@@ -187,6 +184,9 @@ func SharedLexemesOnly(src []byte) []string {
 			span := src[t.Pos:spanEnd(src, t.Pos, end)]
 			if strings.ContainsRune(string(span), '\r') {
 				add("x:comment-cr")
+			}
+			if len(span) >= 7 && string(span[2:7]) == "line " {
+				add("x:line-directive")
 			}
 			if src[t.Pos] == '#' && (byteAt(src, t.Pos+1) == '/' || byteAt(src, t.Pos+1) == '*') {
 				add("x:sharp-quirk")
